@@ -26,19 +26,6 @@ Definition nv_fd : @fdef Z :=
 Definition nv_W : @world Z :=
   {| w_globals := [("x", VQ 2%Z)]; w_fns := [("f", nv_fd)]; w_foreign := []; w_structs := []; w_last := None |}.
 
-Lemma stale_in_rposition : forall (p : program Z) x idx,
-  stale_in p x idx = false -> rposition x (fn_names p) = Some idx.
-Proof.
-  intros p x idx H. unfold stale_in, final_idx in H.
-  pose proof (rposition_find_last x (map (fun n => (n, tt)) (fn_names p))) as R.
-  assert (E0 : forall names, map fst (map (fun n : string => (n, tt)) names) = names).
-  { induction names; simpl; [reflexivity | f_equal; assumption]. }
-  rewrite E0 in R.
-  destruct (find_last x (map (fun n => (n, tt)) (fn_names p))) as [[i u]|]; [|discriminate].
-  destruct (rposition x (fn_names p)) as [j|]; [|contradiction]. destruct R as [E _]. subst j.
-  apply negb_false_iff in H. apply Nat.eqb_eq in H. subst. reflexivity.
-Qed.
-
 Lemma nv_cenv_rel : cenv_rel zops nv_C nv_W nv_ce 1 1 0.
 Proof.
   unfold cenv_rel. repeat split; try (exists []; reflexivity).
